@@ -288,3 +288,49 @@ def _parent_call(fn, node):
                 if a is node:
                     return n
     return None
+
+
+# ---------------------------------------------------------------------------------------------
+# C18: the export hook has an empty write frame on evaluation state
+# ---------------------------------------------------------------------------------------------
+
+
+def export_does_not_mutate_its_inputs():
+    """draw_graph / build_graph / _structure (and their nested functions) only mutate objects they allocate: no store
+    to an attribute or item of a parameter, no mutating method on a parameter (the in-place `start_nodes += l1` hits
+    lists created by traverse; all_refs = dict(indirect_refs) is a copy)."""
+    funs = all_functions()
+    bad = []
+    n = 0
+    for (f, q), fn in sorted(funs.items()):
+        if f != "dds/_plotting.py":
+            continue
+        n += 1
+        top = q.split(".")[0]
+        params = _params_and_locals(funs[(f, top)]) | _params_and_locals(fn)
+        params &= {"fis", "fis_", "present_blobs", "indirect_refs", "out"}
+        for node in ast.walk(fn):
+            tgt = None
+            if isinstance(node, (ast.Assign, ast.AugAssign)):
+                for t in node.targets if isinstance(node, ast.Assign) else [node.target]:
+                    b = t
+                    while isinstance(b, (ast.Subscript, ast.Attribute)):
+                        b = b.value
+                    if isinstance(t, (ast.Subscript, ast.Attribute)) and isinstance(b, ast.Name) and b.id in params:
+                        tgt = b.id
+            if isinstance(node, ast.Call) and isinstance(node.func, ast.Attribute) and node.func.attr in ("append", "extend", "update", "add", "pop", "clear", "insert", "remove", "setdefault", "sort"):
+                b = node.func.value
+                while isinstance(b, (ast.Subscript, ast.Attribute)):
+                    b = b.value
+                if isinstance(b, ast.Name) and b.id in params and not (b.id == "out"):
+                    tgt = b.id
+            if tgt:
+                bad.append("%s:%s line %s mutates its input %s" % (f, q, node.lineno, tgt))
+    # the hook passes the interaction tree, present_blobs and the resolved references, nothing mutable of the evaluation context
+    fn = funs.get(("dds/_api.py", "_eval_new_ctx"))
+    calls = [c for c in ast.walk(fn) if isinstance(c, ast.Call) and isinstance(c.func, ast.Name) and c.func.id == "draw_graph"]
+    ok_args = len(calls) == 1 and [a.id if isinstance(a, ast.Name) else None for a in calls[0].args] == ["inters", "export_graph", "present_blobs", "resolved_indirect_refs"]
+    return [
+        ob("graph_export#frame:inputs_not_mutated", not bad and n >= 3, "; ".join(bad) or "functions of _plotting.py not found"),
+        ob("graph_export#frame:hook_receives_only_the_analysis_results", ok_args, "draw_graph call site changed"),
+    ]
